@@ -67,6 +67,68 @@ TABLE = {
  "C20-b": ("C20", "register_function tests for an existing handler before normalising a class annotation to its name, so the test never matches for class annotations",
            "a second resource handling an already-handled message class, annotated with the class object",
            "detected as built by C20 (Dispatch.tla graph replay: instance r1b of the same class)"),
+ # ---- round 4 (protocol properties, third change each; "prefer a subtle one")
+ "C01-c": ("C01", "the server loop marks a half-open (keyed) connection DISCONNECTED when _recv_datagram returns False for a CHALLENGE_RESP-typed datagram",
+           "a forged datagram typed CHALLENGE_RESP from the client's address while the connection is half-open, through the real server loop",
+           "C02 as built (attacker challenge in Handshake.tla); missed by C01 as built - it injected into connection objects, not through the server loop; detected by C01 after server-loop-level injections (half-open and established) were added"),
+ "C02-c": ("C02", "ClientServerConnection._sendClientHello resets the handshake state including the configured server public key, so the hello's embedded root key is trusted",
+           "the documented call order (public key set before connect) and an attacker answering with a hello signed by its own root key",
+           "detected as built by C02 (re-signed hello in Handshake.tla replayed into a real UdpClient)"),
+ "C03-c": ("C03", "ConnectionBase.send accepts messages while CONNECTING, so they leave in clear (CRC only) before a key exists",
+           "an application that calls send() right after connect() without waiting for the callback",
+           "missed as built (connection-level worlds use a preset key; server-world clause A_sealed judged server emissions only); detected by C03 after clause A_clisealed (every client emission but the single hello opens under the client's key) and an impatient application were added to the slow-handshake scenario"),
+ "C04-c": ("C04", "_recv_message hands APP_FRAGMENT messages to reassembly before the message-level duplicate test",
+           "a fragmented BEST_EFFORT / RETRY message whose fragments are all retransmitted after the receiver completed it (RTT above the resend delay, few fragments)",
+           "the judge rejected the traces at V_mcur (a C08 clause) and stopped there, so C04, C06 and C07 said nothing; detected by C04 and C06 (V_dropwhole / V_deliver) after the judges learned to judge a trace again without the clauses of other properties (Skip) instead of abandoning it"),
+ "C05-c": ("C05", "_recv_message silently drops a message more than 256 sequence numbers behind the newest (copied from the datagram-level rule), although its datagram is acknowledged",
+           "a lost guaranteed message whose retransmission arrives behind a burst of more than 256 newer messages",
+           "missed as built (no bursts in the C05 scenarios; and the model's own delivery hid the loss once V_deliver was skipped); detected by C05 after the scenario guaranteed-under-bursts and the directional clause V_nolost (nothing the specification delivers is withheld) were added"),
+ "C06-c": ("C06", "FragmentReceiver.expired scales the allowance with the measured latency instead of 0.5 s per fragment",
+           "a transfer of 65+ fragments over a link whose round trip is shorter than a frame",
+           "missed as built (payloads up to 7 kB; and context loss was admitted wholesale as the known finding); detected by C06 after large transfers over a fast link (sub-frame polling) and clause V_ctxage (a partly filled context is not given up before the code's own allowance of 1 s + 0.5 s per fragment) were added - the known finding keeps its own, later, expiry"),
+ "C07-c": ("C07", "the same mechanism as C05-c (produced independently): messages older than the 256-wide message window are dropped after their datagram was acknowledged",
+           "as C05-c: the callback reports True for a message the peer never accepted",
+           "missed as built; detected by C07 after callbacks-under-bursts and V_nolost"),
+ "C08-c": ("C08", "SeqNum.__lt__ / __gt__ compare as plain integers",
+           "two numbers on both sides of the 65535 -> 1 wrap",
+           "detected as built by C08 (SeqNum table judged by TLC against SeqRing)"),
+ "C09-c": ("C09", "FragmentSender.build lets the final fragment be as large as MAX_PAYLOAD_SIZE (<=), forgetting the 6-byte fragment header",
+           "payload lengths k*MAX_FRAGMENT_SIZE + r with r within 5 bytes of MAX_PAYLOAD_SIZE",
+           "detected as built by C09, C05, C06 (both-API grid over boundary lengths)"),
+ "C10-c": ("C10", "the shutdown section of the server loop reports disconnect only for clients whose status is still CONNECTED",
+           "a client closed by the server (kicked from inside another client's disconnect event) that is still in the pool when the loop ends",
+           "missed as built (kicks came from handle_message only); detected by C10 (clause L_alldisc) after the match-over scenario was added: the handler closes the remaining players inside a disconnect event and the server is shut down k ticks later, for every k"),
+ "C11-c": ("C11", "TwistedServer keeps a reference to ctxt.blocklist taken at construction",
+           "ServerContext.setBlockList called after the server object was built (it re-binds the attribute)",
+           "missed as built (the world configured the block list before building the server); detected by C11 (clause A_blocked) after a scenario sets the block list after construction and replaces it mid-run"),
+ "C12-c": ("C12", "UdpClient.setKeepAliveInterval restarts the connection's keep-alive timer",
+           "an application that re-applies its settings every frame on an idle connection",
+           "missed as built (each setter was called once); detected by C12 (clause T_clicadence) after the scenario idle, settings re-applied every frame was added"),
+ # ---- round 5 (C13-C20, third change each)
+ "C13-c": ("C13", "Serializable.dumpb writes into one module-level scratch buffer that is emptied only after a successful call",
+           "a refused (out-of-domain) object followed by a valid one in the same process",
+           "missed as built (every value was encoded on its own fresh stream); detected by C13 after dumpb was exercised as a history of calls in which refused objects precede valid ones"),
+ "C14-c": ("C14", "HandshakeClientHelloMessage.deserialize seeks over the padding instead of reading it; a negative padding length seeks backwards",
+           "a chain of oversized client hellos, each exactly one record length after the previous, inside sequences that announce more items than they hold (work doubles per level)",
+           "missed as built; detected by C14 (invocation bound of Obs_Decoder) after record-aligned and misaligned client-hello chains were added to the hostile corpus"),
+ "C15-c": ("C15", "a per-class cache of annotation shapes created with hasattr(), which finds the base class's table",
+           "a subclass re-declaring a field with another generic shape, converted after its base class",
+           "missed as built; detected by C15 after the fixture class became a subclass that re-declares the fields of a base class which is converted first"),
+ "C16-c": ("C16", "Router.__init__ takes a shallow copy of a class-level route table: all routers share the route lists",
+           "two Router objects in one process",
+           "detected as built by C16 (the harness builds a router per table, in one process)"),
+ "C17-c": ("C17", "containment judged with os.path.relpath(...).startswith('../'): a result of exactly '..' passes",
+           "an absolute name that resolves to exactly the parent of the root",
+           "detected as built by C17 (placeholder %P: the root's parent path)"),
+ "C18-c": ("C18", "WebSocketFrame.__init__ assigns a flags CLASS instead of an instance: all frames share opcode / fin / mask / 7-bit length",
+           "two frames alive at the same time (build A, build or parse B, then write A)",
+           "missed as built (each frame was built, written and parsed on its own); detected by C18 after the frame table was processed in shuffled batches of frames that are alive together"),
+ "C19-c": ("C19", "verify_password caches (hash string -> last password checked) whether or not the check succeeded",
+           "the same wrong password (or a damaged hash) submitted twice in a row",
+           "missed as built (each question was asked once, in a process pool); detected by C19 after every question was asked twice in the same process"),
+ "C20-c": ("C20", "the handler lookup is memoised in a class attribute shared by every dispatcher in the process",
+           "two live dispatchers; A dispatches class E, then B dispatches E with no (un)register in between",
+           "missed as built (one dispatcher at a time); detected by C20 after bystander dispatchers (two registered ones asked first, an empty one asked afterwards) were added to every replayed transition"),
 }
 
 HOW = ("tools/seed_eval.sh: fresh scratch worktree of /repo outside /repo and /verif, demo run before and after git apply, full pytest suite "
